@@ -72,6 +72,7 @@ export function matchesPattern(name, opts) {
 }
 export function isComponentTag(tag, opts) {
   const kind = tag.kind;
+  if (tag.fragLike) return false;
   if (kind === 'maybeCustom') return !matchesPattern(tag.name, opts);
   return !(HTMLISH.has(kind) || kind === 'fragShort' || kind === 'Fragment' || kind === 'KeepAlive');
 }
